@@ -74,7 +74,7 @@ Lemma out_local c t s th ch s1 th1 ch1 site wake j0 :
   mstep_thread c t s th ch = Some (s1, th1, ch1, site, wake) ->
   dlt (m_out j0) s th s1 th1 = g_out (gate_at s1 j0) - g_out (gate_at s j0).
 Proof.
-  intros H0 [WL WB] WT J0 H. unfold wf_thread in *. unfold dlt. step_cases H th; wf_fin; subst.
+  intros H0 [[WL WG] WB] WT J0 H. unfold wf_thread in *. unfold dlt. step_cases H th; wf_fin; subst.
   all: try (pose proof (nth_error_gate_lt _ _ _ _ Hn)).
   all: acct_pre Hst.
   all: rewrite ?strandw_out.
@@ -82,4 +82,146 @@ Proof.
   all: try (erewrite !qw_rem by eassumption).
   all: cbn [mf mq mb me m_out wait_holds].
   all: acct_fin.
+Qed.
+
+Definition OutInv (c : cfg) (s : state) : Prop :=
+  forall j0, (j0 < nstages c)%nat -> g_out (gate_at (sh s) j0) = total (m_out j0) s.
+
+Lemma total_init0 m c :
+  (forall j x, mq m j x = 0) -> mf m (FMain MStart) = 0 -> mf m (FWorker false) = 0 -> total m (init c) = 0.
+Proof.
+  intros Q F1 F2. unfold total, init, shw, thsw; cbn [sh threads gates bag log]. rewrite gatesw_zero by exact Q. cbn. rewrite F1.
+  rewrite sumf_zero; [lia|]. intros x Hx. apply in_map_iff in Hx. destruct Hx as [w [<- _]]. cbn. rewrite F2. lia.
+Qed.
+
+Lemma gate_at_init c j : (j < nstages c)%nat -> gate_at (sh (init c)) j = init_gate (stage_at c j).
+Proof.
+  intros L. unfold gate_at, init, stage_at; cbn [sh gates]. unfold nstages in L.
+  rewrite (nth_indep _ dflt_gate (init_gate dflt_sc)) by (rewrite map_length; exact L). apply map_nth.
+Qed.
+
+Lemma OutInv_init c : OutInv c (init c).
+Proof.
+  intros j0 L. rewrite gate_at_init by exact L. cbn [g_out init_gate].
+  unfold total, init, shw, thsw; cbn [sh threads gates bag log].
+  assert (G : forall k l, gatesw (m_out j0) k (map init_gate l) = 0) by (intros k l; revert k; induction l as [|a l IH]; intros k; cbn; [reflexivity | rewrite IH; reflexivity]).
+  rewrite G. cbn. rewrite sumf_zero; [lia|]. intros x Hx. apply in_map_iff in Hx. destruct Hx as [w [<- _]]. reflexivity.
+Qed.
+
+Lemma OutInv_mstep c s t ch s' ch' site :
+  (0 < nstages c)%nat -> WF c s -> OutInv c s -> mstep c s t ch = Some (s', ch', site) -> OutInv c s'.
+Proof.
+  intros H0 [WS WT] I H j0 L. apply mstep_inv in H. destruct H as (th & s1 & th1 & wake & N & M & ->).
+  assert (Wth : wf_thread c th) by (eapply Forall_nth_error; eauto).
+  pose proof (out_local c t (sh s) th ch s1 th1 ch' site wake j0 H0 WS Wth L M) as D.
+  pose proof (total_step (m_out j0) (threads s) t th (sh s) s1 th1 wake eq_refl N) as T1.
+  specialize (I j0 L). destruct s as [s0 ths]; cbn [sh threads] in *. lia.
+Qed.
+
+(* ---------- the completion latch of the generator ---------- *)
+Definition m_genc (c : cfg) : meas := MS
+  (fun f => match f with
+            | FMain MStart => ninst c
+            | FMain (MExec g) => ninst c - g
+            | FGen pc => bz (gen_live pc)
+            | FPool TGen PRun => 1
+            | _ => 0 end)
+  (fun _ _ => 0) (fun tk => match tk with TGen => 1 | _ => 0 end) (fun e => bz (e_kind e =? 13)).
+Definition m_nst : meas := MS (fun f => match f with FGen GNStore => 1 | _ => 0 end) (fun _ _ => 0) (fun _ => 0) (fun _ => 0).
+
+Lemma genc_local c t s th ch s1 th1 ch1 site wake :
+  (0 < nstages c)%nat -> wf_shared c s -> wf_thread c th ->
+  (forall r, stack th = FGen GNStore :: r -> compl s = 0) ->
+  mstep_thread c t s th ch = Some (s1, th1, ch1, site, wake) ->
+  dlt (m_genc c) s th s1 th1 = compl s1 - compl s /\
+  (compl s1 = 0 \/ (compl s1 = compl s /\ dlt m_nst s th s1 th1 <= 0) \/
+   (dlt m_nst s th s1 th1 = 0 /\ exists f r, stack th = f :: r /\ 1 <= mf (m_genc c) f)).
+Proof.
+  intros H0 [[WL WG] WB] WT NS H. unfold wf_thread in *. unfold dlt. step_cases H th; wf_fin; subst.
+  all: try (specialize (NS _ eq_refl)).
+  all: try (match goal with |- _ /\ (_ \/ _ \/ (_ /\ exists f r, ?a :: ?b = _ /\ _)) => split; [|first [ left; cbn [compl w_compl]; lia | idtac ]] end).
+  all: acct_pre Hst.
+  all: rewrite ?(gatesw_zero (m_genc c)), ?(gatesw_zero m_nst) by reflexivity.
+  all: rewrite ?(strandw_zero (m_genc c)), ?(strandw_zero m_nst) by (intros; reflexivity).
+  all: cbn [mf mq mb me m_genc m_nst compl w_compl].
+  all: try (timeout 30 acct_fin).
+  all: try (right; left; split; [reflexivity|]; timeout 30 acct_fin).
+  all: try (right; right; split; [timeout 30 acct_fin | eexists; eexists; split; [reflexivity | cbn; lia]]).
+Qed.
+
+Lemma nonneg_nst : nonneg m_nst.
+Proof. repeat split; intros; cbn; nn. Qed.
+
+Lemma top_le_total m s t th f r :
+  nonneg m -> nth_error (threads s) t = Some th -> stack th = f :: r -> mf m f <= total m s.
+Proof.
+  intros N Hn Hs. pose proof N as (F & Q & B & E). unfold total.
+  assert (0 <= shw m (sh s)).
+  { pose proof (gatesw_nonneg m 0 (gates (sh s)) N). unfold shw, bagw, logw.
+    assert (0 <= sumf (fun e => mb m (snd e)) (bag (sh s))) by (apply sumf_nonneg; intros; apply B).
+    assert (0 <= sumf (me m) (log (sh s))) by (apply sumf_nonneg; exact E). lia. }
+  assert (stackw m (stack th) <= thsw m (threads s)).
+  { unfold thsw. apply (sumf_in_le (fun th => stackw m (stack th))); [intros; apply sumf_nonneg; exact F | eapply nth_error_In; eauto]. }
+  assert (mf m f <= stackw m (stack th)).
+  { rewrite Hs. unfold stackw; cbn. pose proof (sumf_nonneg (mf m) r F). lia. }
+  lia.
+Qed.
+
+Definition GenInv (c : cfg) (s : state) : Prop :=
+  compl (sh s) = total (m_genc c) s /\ (0 < total m_nst s -> compl (sh s) = 0).
+
+Lemma GenInv_init c : GenInv c (init c).
+Proof.
+  split.
+  - unfold total, init, shw, thsw; cbn [sh threads gates bag log compl]. rewrite gatesw_zero by reflexivity. cbn.
+    rewrite sumf_zero; [lia|]. intros x Hx. apply in_map_iff in Hx. destruct Hx as [w [<- _]]. reflexivity.
+  - rewrite total_init0 by reflexivity. lia.
+Qed.
+
+(* the weights of m_genc are non-negative on well-formed states only (MExec g with g <= ninst) *)
+Lemma genc_top_le c s t th f r :
+  WF c s -> nth_error (threads s) t = Some th -> stack th = f :: r -> mf (m_genc c) f <= total (m_genc c) s.
+Proof.
+  intros [WS WT] Hn Hs. pose proof (ninst_pos c) as NP. unfold total.
+  assert (0 <= shw (m_genc c) (sh s)).
+  { unfold shw. rewrite gatesw_zero by reflexivity. unfold bagw, logw.
+    assert (0 <= sumf (fun e => mb (m_genc c) (snd e)) (bag (sh s))) by (apply sumf_nonneg; intros [p []]; cbn; lia).
+    assert (0 <= sumf (me (m_genc c)) (log (sh s))) by (apply sumf_nonneg; intros; apply bz_nonneg). lia. }
+  assert (FN : forall th', In th' (threads s) -> forall f', In f' (stack th') -> 0 <= mf (m_genc c) f').
+  { intros th' Ht f' Hf. rewrite Forall_forall in WT. specialize (WT th' Ht). unfold wf_thread in WT. rewrite Forall_forall in WT.
+    specialize (WT f' Hf). destruct f'; cbn; try lia; [destruct pc; cbn in *; lia | apply bz_nonneg | destruct tk; try lia; destruct pc; lia]. }
+  assert (SN : forall th', In th' (threads s) -> 0 <= stackw (m_genc c) (stack th')).
+  { intros th' Ht. unfold stackw. apply sumf_nonneg_in. intros f' Hf. eapply FN; eauto. }
+  assert (stackw (m_genc c) (stack th) <= thsw (m_genc c) (threads s)).
+  { unfold thsw. apply (sumf_in_le_in (fun th0 => stackw (m_genc c) (stack th0))); [exact SN | eapply nth_error_In; eauto]. }
+  assert (mf (m_genc c) f <= stackw (m_genc c) (stack th)).
+  { unfold stackw. apply sumf_in_le_in; [intros; eapply FN; eauto using nth_error_In | rewrite Hs; left; reflexivity]. }
+  lia.
+Qed.
+
+Lemma GenInv_mstep c s t ch s' ch' site :
+  (0 < nstages c)%nat -> WF c s -> GenInv c s -> mstep c s t ch = Some (s', ch', site) -> GenInv c s'.
+Proof.
+  intros H0 W [I1 I2] H. pose proof W as [WS WT]. apply mstep_inv in H. destruct H as (th & s1 & th1 & wake & N & M & ->).
+  assert (Wth : wf_thread c th) by (eapply Forall_nth_error; eauto).
+  assert (NS : forall r, stack th = FGen GNStore :: r -> compl (sh s) = 0).
+  { intros r Hs. apply I2. pose proof (top_le_total m_nst s t th _ r nonneg_nst N Hs) as K. cbn in K. lia. }
+  destruct (genc_local c t (sh s) th ch s1 th1 ch' site wake H0 WS Wth NS M) as [D1 D2].
+  pose proof (total_step (m_genc c) (threads s) t th (sh s) s1 th1 wake eq_refl N) as T1.
+  pose proof (total_step m_nst (threads s) t th (sh s) s1 th1 wake eq_refl N) as T2.
+  split; [destruct s as [s0 ths]; cbn [sh threads] in *; lia|].
+  intros P. cbn [sh]. destruct D2 as [D2|[[D2 D3]|[D3 (f & r & Hs & Hf)]]]; [exact D2| |].
+  - rewrite D2. apply I2. destruct s as [s0 ths]; cbn [sh threads] in *. lia.
+  - exfalso. assert (compl (sh s) = 0) by (apply I2; destruct s as [s0 ths]; cbn [sh threads] in *; lia).
+    pose proof (genc_top_le c s t th f r W N Hs). lia.
+Qed.
+
+Theorem acct_invariants c s :
+  (0 < nstages c)%nat -> reach (mstep c) (init c) s -> WF c s /\ PoolInv s /\ OutInv c s /\ GenInv c s.
+Proof.
+  intros H0 R.
+  apply (reach_inv (mstep c) (fun s => WF c s /\ PoolInv s /\ OutInv c s /\ GenInv c s) (init c)); [| | exact R].
+  - split; [apply WF_init|]. split; [apply PoolInv_init|]. split; [apply OutInv_init | apply GenInv_init].
+  - intros s1 t ch s1' ch' site (W & P & O & G) E.
+    split; [eapply WF_mstep; eauto|]. split; [eapply PoolInv_mstep; eauto|]. split; [eapply OutInv_mstep; eauto | eapply GenInv_mstep; eauto].
 Qed.
